@@ -219,3 +219,9 @@ V("WT1-newobjlist-conditional", "C08", "WT1",
 V("C08-benign-rename-local", "C08", None,
   ("writer.py", "        next_segment_offset = metadata_size + self._data_size()\n        raw_data_offset = metadata_size\n        leadin.append(Uint64(next_segment_offset))\n        leadin.append(Uint64(raw_data_offset))\n",
    "        next_offset = metadata_size + self._data_size()\n        data_offset = metadata_size\n        leadin.append(Uint64(next_offset))\n        leadin.append(Uint64(data_offset))\n"))
+
+V("BL5-benign-shared-encode-helper", "C08", None,
+  ("writer.py", "def object_data_size(data_type, data_values):\n    if data_type == String:\n        # For string data, the total size is 8 bytes per string for the\n        # offsets to the start of each string, plus the length of each string.\n        try:\n            encoded_strings = [s.encode(\"utf-8\") for s in data_values]\n        except AttributeError:\n            encoded_strings = data_values\n",
+   "def _encode_strings(strings):\n    try:\n        encoded = [s.encode(\"utf-8\") for s in strings]\n    except AttributeError:\n        encoded = strings\n    return encoded\n\n\ndef object_data_size(data_type, data_values):\n    if data_type == String:\n        encoded_strings = _encode_strings(data_values)\n"),
+  ("writer.py", "def write_string_values(file, strings):\n    try:\n        encoded_strings = [s.encode(\"utf-8\") for s in strings]\n    except AttributeError:\n        # Assume if we can't encode then we already have bytes\n        encoded_strings = strings\n",
+   "def write_string_values(file, strings):\n    encoded_strings = _encode_strings(strings)\n"))
